@@ -103,6 +103,11 @@ func ParseDecimal(s string) (Decimal, error) {
 		return Decimal{}, fmt.Errorf("%w: missing decimal point", errDecimal)
 	}
 
+	if s[0] == '+' {
+		// strconv.ParseInt accepts a leading plus sign, Cedar's decimal syntax does not
+		return Decimal{}, fmt.Errorf("%w: unexpected leading '+'", errDecimal)
+	}
+
 	intPart, err := strconv.ParseInt(s[0:decimalIndex], 10, 64)
 	if err != nil {
 		if errors.Is(err, strconv.ErrRange) {
